@@ -108,7 +108,7 @@ def _exceptions_from_stubs(expr: astroid.Call, stubs: StubsManager) -> Iterator[
         if stub is None:
             continue
         names = stub.get(func=func_name, contract=Category.RAISES)
-        for name in names:
+        for name in sorted(names):
             name = getattr(builtins, name, name)
             yield Token(value=name)
 
